@@ -568,7 +568,7 @@ func (bt *builtTx) msgUnjail() (postypes.MsgUnjail, bool) {
 
 var valsetKinds = []string{"stake", "stake", "stake", "unstake", "unstake", "unjail", "unjail", "burn", "burn", "send", "award", "param"}
 
-var c05Profile = &histProfile{MaxBlocks: 24, MinBlocksOf: []int{3, 8, 14}, Evidence: 4, Missed: 1, Restart: 0, MaxTxs: 4, TxKinds: valsetKinds, Scripts: true, Batches: true, Anchor: true,
+var c05Profile = &histProfile{MaxBlocks: 24, MinBlocksOf: []int{3, 8, 14}, Evidence: 4, Missed: 1, Restart: 0, MaxTxs: 4, TxKinds: valsetKinds, Scripts: true, Batches: true, Anchor: true, OwnerBias: 3,
 	MaxVals: []uint64{1, 2, 3, 5, 100000}, Windows: []int64{10, 10, 14}}
 
 func genValset(pr *histProfile, noMinChange bool) func(t *rapid.T, tier string) interface{} {
@@ -679,9 +679,9 @@ func execC09(prog interface{}, c *Case) *Violation {
 var _ = bytes.Equal
 
 func init() {
-	c06Profile := &histProfile{MaxBlocks: 24, MinBlocksOf: []int{3, 8, 14}, Evidence: 5, Missed: 2, Restart: 0, MaxTxs: 5, FixedMin: true, Scripts: true, Batches: true, Anchor: true,
-		TxKinds: []string{"stake", "stake", "stake", "unstake", "unstake", "unstake", "unjail", "burn", "burn", "send", "award"}, Windows: []int64{10, 10, 14}}
-	c09Profile := &histProfile{MaxBlocks: 30, MinBlocksOf: []int{6, 12, 20}, Evidence: 5, Missed: 1, Restart: 0, MaxTxs: 4, Scripts: true, Batches: true, Anchor: true,
+	c06Profile := &histProfile{MaxBlocks: 24, MinBlocksOf: []int{3, 8, 14}, Evidence: 5, Missed: 2, Restart: 0, MaxTxs: 5, FixedMin: true, Scripts: true, Batches: true, Anchor: true, OwnerBias: 3,
+		TxKinds: []string{"stake", "stake", "stake", "unstake", "unstake", "unstake", "unjail", "burn", "burn", "send", "award", "param", "param"}, Windows: []int64{10, 10, 14}}
+	c09Profile := &histProfile{MaxBlocks: 30, MinBlocksOf: []int{6, 12, 20}, Evidence: 5, Missed: 1, Restart: 0, MaxTxs: 4, Scripts: true, Batches: true, Anchor: true, OwnerBias: 3,
 		TxKinds: []string{"unjail", "unjail", "unjail", "stake", "unstake", "burn", "send", "param"}, Windows: []int64{10, 10, 10},
 		ScriptTemplates: [][]string{
 			{"downtime", "unjail!", "wait", "unjail"},
@@ -706,7 +706,7 @@ func init() {
 			"staked unjailed validators under their current stake, unstaking validators queued at their completion time, no matured queue entry survives EndBlock, release at the first block at/after " +
 			"begin+UnstakingTime with the whole stake, stake >= minimum for every validator that is not unstaked. Non-trivial = some validator makes >=3 transitions or >=2 validators mature in one block; " +
 			"distinctness = hash of the program",
-		Gen: genValset(c06Profile, true), New: func() interface{} { return &hProg{} }, Exec: execC06, RecordCur: func(interface{}) bool { return true },
+		Gen: genValset(c06Profile, false), New: func() interface{} { return &hProg{} }, Exec: execC06, RecordCur: func(interface{}) bool { return true },
 		Assum: []string{"stale queue entries for validators that are no longer unstaking are allowed (the statement only requires unstaking validators to be queued)"}})
 	register(&PropDef{ID: "C09",
 		Rule: "chain histories with jailing by downtime (10-block window, missed votes in every block) and by double-sign evidence, unjail requests at all times relative to jailed-until from jailed / " +
